@@ -198,9 +198,43 @@ def calibrate (g c : Rat) (d : V) : V :=
   if c = 0 ∧ g = 1 then d
   else d.bind (fun q => if g = 0 then none else some ((q - c) / g))
 
+/-! ## sessions: several operations on one object
+
+`calibrate` reads nothing but the `gradient` and `intercept` attributes at the time of the call.  They are
+plain public attributes: written by the constructor, by `update_linreg` and by direct assignment
+(`cal.gradient = g`).  A session is a list of such operations on ONE object; the arrays returned by its
+`calibrate` calls are what is observed. -/
+
+/-- one operation on a `Calibration` object, as far as `calibrate` can see it -/
+inductive Step
+  | assign (g c : Rat)                        -- `cal.gradient = g; cal.intercept = c`
+  | refit (wt : Weighting) (rows : List Row)  -- `cal.points = …; cal.weights = …; cal.update_linreg()`
+  | calibrate (data : List V)                 -- `cal.calibrate(data)`; the returned array is recorded
+  deriving Repr, DecidableEq
+
+/-- the object after one operation, and the array the operation returns (if any).  Assigning the two
+attributes leaves `rsq`/`error` as they were; `update_linreg` overwrites all four. -/
+def step (o : Fit) : Step → Fit × Option (List V)
+  | .assign g c => ({ o with gradient := g, intercept := c }, none)
+  | .refit wt rows => (updateLinreg wt rows, none)
+  | .calibrate d => (o, some (d.map (calibrate o.gradient o.intercept)))
+
+/-- the object after a session -/
+def finalState (o : Fit) : List Step → Fit
+  | [] => o
+  | s :: l => finalState (step o s).1 l
+
+/-- the arrays returned by the `calibrate` calls of a session, in order -/
+def run (o : Fit) : List Step → List (List V)
+  | [] => []
+  | s :: l =>
+    match (step o s).2 with
+    | none => run (step o s).1 l
+    | some out => out :: run (step o s).1 l
+
 /-! ## specification -/
 
-def meanX (l : List Pt) : Rat := Swx l / Sw l
+def meanX(l : List Pt) : Rat := Swx l / Sw l
 def meanY (l : List Pt) : Rat := Swy l / Sw l
 def sxx (l : List Pt) : Rat := S (fun p => p.w * (p.x - meanX l) ^ 2) l
 def syy (l : List Pt) : Rat := S (fun p => p.w * (p.y - meanY l) ^ 2) l
